@@ -238,3 +238,41 @@ class StoreBounded(Contract):
         out = {k: (k not in failed) for k in ('decimal_string', 'complex_components', 'decimal_string_call', 'decimal_string_setitem')}
         out['details'] = len(obs['bad']) == 0
         return out
+
+
+# ==========================================================================================================
+@contract
+class StateFactory(Contract):
+    """Self-validation: the 'arbitrary well-formed pre-state' used by body verification (common.make_fxp, built
+    WITHOUT running __init__) is attribute-for-attribute what the real constructor produces for the same format
+    and code (bounded: enumerated formats and codes, native run)."""
+    name = 'selfcheck:state-factory agreement'
+    layer = 0
+    native_only = True
+    props = {'*': ['C02']}
+
+    def configs(self, tier):
+        for (s, n, f) in core_formats('quick')[::3] + [(True, 64, 0), (False, 64, 32), (True, 128, 64)]:
+            yield dict(signed=s, n_word=n, n_frac=f)
+
+    def run(self, cfg, P, inp):
+        from fxpv.harness import canon
+        s, n, f = cfg['signed'], cfg['n_word'], cfg['n_frac']
+        lo, hi = range_of(s, n)
+        bad = []; cases = 0
+        for shape, codes in (((), [hi]), ((), [lo]), ((2,), [0, min(hi, 1)]), ((2, 2), [lo, hi, 0, lo])):
+            real = P.Fxp(codes[0] if shape == () else P.arr(codes, dtype=store_dtype(s, n), shape=shape), s, n, f, raw=True)
+            fake = make_fxp(P, s, n, f, codes=codes, shape=shape, vdtype=real.vdtype)
+            cases += 1
+            # config is compared separately; the status record is a free (symbolic) part of every pre-state
+            a = canon({k: v for k, v in real.__dict__.items() if k not in ('config', 'status')}, None)
+            b = canon({k: v for k, v in fake.__dict__.items() if k not in ('config', 'status')}, None)
+            if a != b or real.config.__dict__ != fake.config.__dict__ or set(real.__dict__) != set(fake.__dict__):
+                diff = [k for k in a if a.get(k) != b.get(k)]
+                bad.append([list(shape), diff, str({k: (a.get(k), b.get(k)) for k in diff})[:300]])
+        return {'bad': bad, 'cases': cases}
+
+    def post(self, cfg, inp, obs):
+        if obs['exc']:
+            return {}
+        return {'factory_matches_constructor': len(obs['bad']) == 0, 'details': len(obs['bad']) == 0}
